@@ -92,6 +92,18 @@ def check(case):
         rn = desc["chains"][ci]["seq"][i]
         base = topo.BASE.get(rn, rn)
         out = {k: np.array(a.coords) for k, a in entry["atoms"].items()}
+        # The carboxylic-acid optimiser may exchange the *names* of the two chemically
+        # equivalent oxygens of ASH/GLH (the proton is always called HD2/HE2): no atom
+        # moves.  Compare such a pair as an unordered set.
+        for o1, o2, c, cb in (("OD1", "OD2", "CG", "CB"), ("OE1", "OE2", "CD", "CG")):
+            if base in ("ASP", "GLU") and all(k in out and k in names for k in (o1, o2, c, cb)):
+                star = [c, cb, o1, o2]
+                swap = [c, cb, o2, o1]
+                e_straight = geom.rmsd_fit([names[k] for k in star], [out[k] for k in star])
+                e_swapped = geom.rmsd_fit([names[k] for k in star], [out[k] for k in swap])
+                if e_swapped < e_straight:
+                    out[o1], out[o2] = out[o2], out[o1]
+                    res.label("carboxyl-names-swapped")
         inp = {k: v for k, v in names.items() if k in out}
         disp = {k: float(np.linalg.norm(out[k] - v)) for k, v in inp.items()}
         heavy_moved = [k for k, d in disp.items() if d > 1e-6 and topo.heavy(k)]
